@@ -218,6 +218,50 @@ fn enumerated(j: u64) -> Sys {
     Sys { wbits: 64, num_vars: 3, eqs }
 }
 
+/// Systems with very long rows (a global parity row and friends) around the
+/// sizes where a narrow per-equation counter would wrap.
+fn long_rows(j: u64) -> Sys {
+    let len = [255usize, 256, 257, 65_535, 65_536, 65_537, 65_538, 131_072, 511, 70_000][j as usize % 10];
+    let k = j / 10;
+    let num_vars = len + [0usize, 1, 5][(k % 3) as usize];
+    let sol = |i: u32| -> u128 { ((i as u64 + 1).wrapping_mul(0x9E37_79B9_7F4A_7C15) >> 7) as u128 };
+    let mut rows: Vec<Vec<u32>> = vec![(0..len as u32).collect()];
+    match (k / 3) % 4 {
+        0 => {
+            rows.push(vec![6]);
+            rows.push(vec![0]);
+        }
+        1 => {
+            // a second long row: everything but a few variables
+            rows.push((0..len as u32).filter(|v| *v != 3 && *v != 100 && *v != len as u32 - 1).collect());
+            rows.push(vec![3, 100]);
+            rows.push(vec![1, 2, 3]);
+        }
+        2 => {
+            rows.push(vec![0, len as u32 - 1]);
+            rows.push(vec![len as u32 - 1]);
+            rows.push(vec![5, 6, 7]);
+            rows.push(vec![6, 7, 8]);
+        }
+        _ => {
+            // two halves and the whole
+            rows.push((0..len as u32 / 2).collect());
+            rows.push((len as u32 / 2..len as u32).collect());
+            rows.push(vec![0, 1, 2]);
+        }
+    }
+    if k % 2 == 1 {
+        rows.reverse();
+    }
+    let mut eqs: Vec<(Vec<u32>, u128)> = rows.into_iter().map(|vars| { let c = vars.iter().fold(0u128, |a, v| a ^ sol(*v)); (vars, c) }).collect();
+    if (k / 12) % 3 == 2 {
+        // contradiction: the long row again with another constant
+        let (v, c) = eqs.iter().max_by_key(|e| e.0.len()).unwrap().clone();
+        eqs.push((v, c ^ 1));
+    }
+    Sys { wbits: 64, num_vars, eqs }
+}
+
 pub const ENUM_COUNT: u64 = 1 + 14 + 196 + 2744 + 38416;
 
 fn run_w<W: TW>(cx: &mut Ctx, s: &Sys) -> R {
@@ -241,7 +285,7 @@ fn run_w<W: TW>(cx: &mut Ctx, s: &Sys) -> R {
                 cx.check_eq(sol.len(), s.num_vars, name, || format!("{name}: solution length"))?;
                 let sol128: Vec<u128> = sol.iter().map(|x| x.to128()).collect();
                 // the harness' own evaluator, so a broken check() cannot vouch for a broken solver
-                cx.check(eval(s, &sol128), name, || format!("{name} returned an assignment violating an equation: {:x?}", sol128))?;
+                cx.check(eval(s, &sol128), name, || format!("{name} returned an assignment violating an equation: {:x?}{}", &sol128[..sol128.len().min(12)], if sol128.len() > 12 { " ..." } else { "" }))?;
                 // and check() of the pristine system
                 let ok = cx.must("check", || orig.check(&sol))?;
                 cx.check(ok, "check", || format!("check() rejects a satisfying assignment returned by {name}"))?;
@@ -274,15 +318,17 @@ impl Property for C19 {
     fn plan(&self, tier: Tier) -> Vec<Segment> {
         vec![
             Segment::enumerated("exhaustive<=3vars<=4eqs", ENUM_COUNT, &[0xF0]),
-            Segment::random("u8", tier.pick(40_000, 600_000), &[0], 8, 700),
-            Segment::random("u64", tier.pick(40_000, 600_000), &[1], 8, 700),
-            Segment::random("usize", tier.pick(40_000, 600_000), &[2], 8, 700),
-            Segment::random("u128", tier.pick(10_000, 200_000), &[3], 8, 700),
-            Segment::random("u16", tier.pick(10_000, 200_000), &[4], 8, 700),
+            Segment::random("u8", tier.pick(320_000, 12_000_000), &[0], 8, 700),
+            Segment::random("u64", tier.pick(320_000, 12_000_000), &[1], 8, 700),
+            Segment::random("usize", tier.pick(320_000, 12_000_000), &[2], 8, 700),
+            Segment::random("u128", tier.pick(80_000, 4_000_000), &[3], 8, 700),
+            Segment::random("u16", tier.pick(80_000, 4_000_000), &[4], 8, 700),
+            // rows with 2^8 +-1, 2^16 +-1 and more variables (counters of idle variables per equation)
+            Segment::enumerated("long-rows", tier.pick(24, 96), &[0xF1]),
         ]
     }
     fn rule(&self) -> &'static str {
-        "case = system over W in {u8,u16,u64,usize,u128} with <=70 variables and <=~70 equations whose variable lists are non-empty, strictly increasing and below num_vars (sizes 1..6, mostly 3), shaped as planted-solution, planted+contradictory combination, arbitrary constants, repeated rows, rank-deficient, 3-uniform and fuse-like (segment) systems; plus the complete enumeration of all systems with 3 variables, <=4 equations and 1-bit constants. Oracle = independent dense Gauss-Jordan elimination in the harness; both solvers run on clones: Ok iff solvable, solution length, harness evaluator and check(). Non-trivial: at least 2 equations sharing a variable; distinct = distinct hash of the decoded system."
+        "case = system over W in {u8,u16,u64,usize,u128} with <=70 variables and <=~70 equations whose variable lists are non-empty, strictly increasing and below num_vars (sizes 1..6, mostly 3), shaped as planted-solution, planted+contradictory combination, arbitrary constants, repeated rows, rank-deficient, 3-uniform and fuse-like (segment) systems; plus the complete enumeration of all systems with 3 variables, <=4 equations and 1-bit constants. plus an enumerated segment of planted/contradictory systems with rows of 255..257, 511, 65535..65538, 70000 and 131072 variables (global parity rows, halves, near-complements) next to short rows. Oracle = independent dense Gauss-Jordan elimination in the harness; both solvers run on clones: Ok iff solvable, solution length, harness evaluator and check(). Non-trivial: at least 2 equations sharing a variable; distinct = distinct hash of the decoded system."
     }
     fn run(&self, data: &[u8], cx: &mut Ctx) -> R {
         let (mode, rest) = data.split_first().unwrap_or((&0, &[]));
@@ -291,13 +337,18 @@ impl Property for C19 {
             b[..rest.len().min(8)].copy_from_slice(&rest[..rest.len().min(8)]);
             cx.label("enumerated");
             enumerated(u64::from_le_bytes(b) % ENUM_COUNT)
+        } else if *mode == 0xF1 {
+            let mut b = [0u8; 8];
+            b[..rest.len().min(8)].copy_from_slice(&rest[..rest.len().min(8)]);
+            cx.label("long_rows");
+            long_rows(u64::from_le_bytes(b))
         } else {
             let wbits = [8u32, 64, 64, 128, 16][*mode as usize % 5];
             let mut u = Unstructured::new(rest);
             decode(&mut u, wbits)
         };
         cx.hash(&s);
-        cx.describe(|| format!("{:?}", s));
+        cx.describe(|| if s.num_vars > 200 { format!("Sys {{ wbits: {}, num_vars: {}, eqs (lengths, constant): {:?} }}", s.wbits, s.num_vars, s.eqs.iter().map(|(v, c)| (v.len(), v.first().copied(), v.last().copied(), *c)).collect::<Vec<_>>()) } else { format!("{:?}", s) });
         let mut shares = false;
         let mut seen = vec![false; s.num_vars];
         for (vars, _) in &s.eqs {
@@ -310,7 +361,7 @@ impl Property for C19 {
         cx.label_if(seen.iter().any(|x| !*x), "unused_var");
         cx.label_if(s.eqs.len() > s.num_vars, "overdetermined");
         match *mode {
-            0xF0 | 1 => run_w::<u64>(cx, &s),
+            0xF0 | 0xF1 | 1 => run_w::<u64>(cx, &s),
             0 => run_w::<u8>(cx, &s),
             2 => run_w::<usize>(cx, &s),
             3 => run_w::<u128>(cx, &s),
